@@ -42,6 +42,7 @@ HID = "::rules::hidden::"
 
 def run(rep, tier):
     entry(rep)
+    independent(rep)
     rep.explanation = (
         "programs = rule functions of the meta-grammar parser (+ skip, enum, dispatch); each is compared between "
         "the fresh expansion and the checked-in file after reduction to combinator terms.")
@@ -176,6 +177,111 @@ def entry(rep):
                         % hirq.expr_text(leaf)[:100])
     if not leaves:
         r.lost("return value of parser::parse")
+
+
+def peg_norm(e, rules):
+    """Documented normal form of the optimizer, applied to either side: e+ = e e*, e{m,n} unrolled, ~ and | flattened,
+    and a reference to a rule that is only a choice of literals inlined under `!` (a predicate emits no token, so the
+    reference and its definition are interchangeable there; the skip-until rewrite relies on this)."""
+    def lits_only(name, seen=()):
+        if name not in rules or name in seen:
+            return None
+        out = []
+        from .. import pestgram
+        for a in pestgram.alternatives(rules[name][1]):
+            if a[0] == "str":
+                out.append(a)
+            elif a[0] == "ident":
+                sub = lits_only(a[1], seen + (name,))
+                if sub is None:
+                    return None
+                out += sub
+            else:
+                return None
+        return out
+
+    def N(e, under_neg=False):
+        k = e[0]
+        if k == "rep1":
+            x = N(e[1], under_neg)
+            return N(("seq", [x, ("rep", x)]), under_neg)
+        if k == "repn":
+            x = N(e[1], under_neg)
+            lo, hi = e[2], e[3]
+            items = [x] * lo
+            if hi is None:
+                items.append(("rep", x))
+            else:
+                items += [("opt", x)] * (hi - lo)
+            return N(("seq", items), under_neg) if len(items) != 1 else items[0]
+        if k in ("seq", "choice"):
+            out = []
+            for x in e[1]:
+                x = N(x, under_neg)
+                if x[0] == k:
+                    out += x[1]
+                else:
+                    out.append(x)
+            return (k, out) if len(out) != 1 else out[0]
+        if k == "neg":
+            return (k, N(e[1], True))
+        if k in ("rep", "opt", "pos", "push"):
+            return (k, N(e[1], under_neg))
+        if k == "ident" and under_neg:
+            ls = lits_only(e[1])
+            if ls:
+                return ("choice", ls) if len(ls) > 1 else ls[0]
+        return e
+    return N(e)
+
+
+def independent(rep):
+    """grammar.rs read back (typed HIR -> combinator terms -> PEG) against grammar.pest read by pv/pestgram.py: neither
+    side passes through pest's own reader, optimizer or generator, which breaks the circularity of regeneration."""
+    from .. import decompile, pestgram
+    r = rep.rule("C14.INDEPENDENT", 60,
+                 "every rule function of the checked-in grammar.rs decompiles to the expression grammar.pest gives that "
+                 "rule (same modifier), modulo the optimizer's documented normal form; the implicit skip is the "
+                 "documented WHITESPACE/COMMENT loop; the rule sets coincide")
+    meta = facts.facts("default").crate("pest_meta")
+    if meta is None:
+        r.lost("pest_meta facts")
+        return
+    try:
+        rt = decompile.rule_terms(meta, "PestParser")
+        g = decompile.grammar(rt)
+    except decompile.NotUnderstood as e:
+        r.violation("decompile", "meta/src/grammar.rs", "grammar.rs is not understood: %s" % e)
+        return
+    try:
+        s = pestgram.rules_dict(pestgram.parse_file(facts.REPO + "/meta/src/grammar.pest"))
+    except Exception as e:
+        r.lost("meta/src/grammar.pest not readable: %s" % e)
+        return
+    for n in sorted(set(g) | set(s)):
+        if n not in g or n not in s:
+            r.violation("rule-set:" + n, "meta/src/grammar.rs", "rule %s exists only in %s" % (
+                n, "grammar.rs" if n in g else "grammar.pest"))
+            continue
+        a = (g[n][0], peg_norm(g[n][1], g))
+        b = (s[n][0], peg_norm(s[n][1], s))
+        r.instance("rule:" + n, "meta/src/grammar.rs")
+        if a != b:
+            r.violation("rule:" + n, "meta/src/grammar.rs",
+                        "grammar.rs implements %s as `%s %s`, grammar.pest says `%s %s`" % (
+                            n, a[0], pestgram.show(a[1]) if hasattr(pestgram, "show") else a[1],
+                            b[0], pestgram.show(b[1]) if hasattr(pestgram, "show") else b[1]))
+    ws, cm = "WHITESPACE" in s, "COMMENT" in s
+    rep_ws = ("comb", "repeat", (), ("call", ("lit", "WHITESPACE")))
+    rep_cm = ("comb", "repeat", (), ("call", ("lit", "COMMENT")))
+    body = {(False, False): None, (True, False): rep_ws, (False, True): rep_cm,
+            (True, True): ("comb", "sequence", (), ("then", (rep_ws, ("comb", "repeat", (), ("comb", "sequence", (), (
+                "then", (("call", ("lit", "COMMENT")), rep_ws)))))))}[(ws, cm)]
+    want = ("ok",) if body is None else ("if", "state.atomicity() == Atomicity::NonAtomic", body, ("ok",))
+    r.instance("skip", "meta/src/grammar.rs")
+    if rt.get("__skip__") != want:
+        r.violation("skip", "meta/src/grammar.rs", "the implicit skip of grammar.rs is `%s`, grammar.pest defines "
+                    "WHITESPACE=%s COMMENT=%s" % (show(rt.get("__skip__")) if rt.get("__skip__") else None, ws, cm))
 
 
 def term_of(fn):
